@@ -26,6 +26,8 @@ pub trait Ops {
     fn sample(&self, g: &mut StdRng) -> Result<(Value, Vec<u8>), String>;
     fn host(&self) -> &'static str;
     fn bound(&self) -> Value;
+    /// native decode under quotas: outcome class, reported cost, peak allocation
+    fn decode_with(&self, bytes: &[u8], d: Option<usize>, s: Option<usize>) -> Value;
 }
 pub struct E<T>(pub PhantomData<T>);
 impl<T: Corp> Ops for E<T> {
@@ -58,6 +60,19 @@ impl<T: Corp> Ops for E<T> {
         match guard(|| Encode!(&v)) { Ok(Ok(b)) => Ok((v.absv(), b)), Ok(Err(e)) => Err(e.to_string()), Err(s) => Err(format!("panic {s}")) }
     }
     fn bound(&self) -> Value { T::bound() }
+    fn decode_with(&self, bytes: &[u8], d: Option<usize>, s: Option<usize>) -> Value {
+        let mut c = candid::de::DecoderConfig::new();
+        if let Some(d) = d { c.set_decoding_quota(d); }
+        if let Some(s) = s { c.set_skipping_quota(s); }
+        let base = crate::fuzz::peak_reset();
+        let r = guard(|| { let mut de = candid::de::IDLDeserialize::new_with_config(bytes, &c)?; let x = de.get_value::<T>()?; de.done()?; let cost = de.get_config().compute_cost(&c); Ok::<_, candid::Error>((x.absv(), cost)) });
+        let peak = crate::fuzz::peak_since(base);
+        match r {
+            Ok(Ok((a, cost))) => json!({"ok": [if self.host().contains("unordered") { canon(a) } else { a }], "cd": cost.decoding_quota.map(|x| x as i64).unwrap_or(-1), "cs": cost.skipping_quota.map(|x| x as i64).unwrap_or(-1), "peak": peak}),
+            Ok(Err(e)) => { let m = format!("{e:?}"); if m.contains("cost exceeds the limit") { json!({"quota": 1, "peak": peak}) } else { json!({"err": 1, "msg": crate::util::errmsg(&e), "peak": peak}) } }
+            Err(s) => json!({"panic": s, "peak": peak}),
+        }
+    }
     fn host(&self) -> &'static str {
         let n = std::any::type_name::<T>();
         let un = n.contains("Map<") || n.contains("Set<");
@@ -65,6 +80,18 @@ impl<T: Corp> Ops for E<T> {
         let arr = n.contains('[');
         match (un, r128, arr) { (false, false, false) => "exact", (true, false, false) => "unordered", (false, true, false) => "range128", (true, true, false) => "unordered,range128",
                                 (false, false, true) => "array", (true, false, true) => "unordered,array", (false, true, true) => "range128,array", _ => "unordered,range128,array" }
+    }
+}
+/// order-insensitive normal form for values of unordered host collections
+fn canon(v: Value) -> Value {
+    match v {
+        Value::Object(mut o) => {
+            if let Some(Value::Array(vs)) = o.remove("vs") { let mut xs: Vec<Value> = vs.into_iter().map(canon).collect(); xs.sort_by_key(|x| x.to_string()); o.insert("vs".into(), Value::Array(xs)); }
+            if let Some(x) = o.remove("v") { o.insert("v".into(), canon(x)); }
+            if let Some(Value::Array(fs)) = o.remove("fs") { o.insert("fs".into(), Value::Array(fs.into_iter().map(canon).collect())); }
+            Value::Object(o)
+        }
+        o => o,
     }
 }
 macro_rules! e { ($($t:ty),* $(,)?) => { vec![$(Box::new(E::<$t>(PhantomData)) as Box<dyn Ops>),*] }; }
